@@ -30,9 +30,10 @@ VARIABLES cid,        \* which case
           errsym, save, rstate,   \* locals of _recover
           nid,        \* next node id (number of action calls so far)
           rec,        \* _recover has been entered at least once (monotone flag)
+          lost,       \* ghost: token indices of Error symbols popped by a recovery before being reduced
           out         \* events emitted by the last step (not a history)
 
-vars == <<cid, w, closed, stack, la, lasym, qla, qlasym, pos, pc, errsym, save, rstate, nid, rec, out>>
+vars == <<cid, w, closed, stack, la, lasym, qla, qlasym, pos, pc, errsym, save, rstate, nid, rec, lost, out>>
 
 T == Cases[cid].tables
 ERR == 1
@@ -40,9 +41,13 @@ EOFT == 0
 Final == {"accept", "fail", "panic"}
 
 TV(v) == IF Track THEN v ELSE NoV
-Item(st, sym, b, e, empty) ==
-  IF Track THEN [st |-> st, sym |-> sym, b |-> b, e |-> e, empty |-> empty]
-  ELSE [st |-> st, sym |-> NoV, b |-> 0, e |-> 0, empty |-> FALSE]
+\* y: the terminal yield below the item, <<kind, token index, terminal>> per leaf (a ghost of the
+\* tracked model; the real stack holds only State, Sym, Bounds)
+Item(st, sym, b, e, empty, y) ==
+  IF Track THEN [st |-> st, sym |-> sym, b |-> b, e |-> e, empty |-> empty, y |-> y]
+  ELSE [st |-> st, sym |-> NoV, b |-> 0, e |-> 0, empty |-> FALSE, y |-> <<>>]
+RECURSIVE YieldOf(_)
+YieldOf(items) == IF items = <<>> THEN <<>> ELSE Head(items).y \o YieldOf(Tail(items))
 Top(stk) == stk[Len(stk)]
 Peek(stk, n) == stk[Len(stk) - n]
 
@@ -54,7 +59,7 @@ Init ==
   /\ w = <<>> /\ closed = FALSE
   /\ stack = <<>> /\ la = -1 /\ lasym = NoV /\ qla = -1 /\ qlasym = NoV
   /\ pos = 0 /\ pc = "start"
-  /\ errsym = NoV /\ save = <<>> /\ rstate = 0 /\ nid = 0 /\ rec = FALSE /\ out = <<>>
+  /\ errsym = NoV /\ save = <<>> /\ rstate = 0 /\ nid = 0 /\ rec = FALSE /\ lost = {} /\ out = <<>>
 
 -----------------------------------------------------------------------------
 (* _readToken, as a fragment of the enclosing step.  stk is the stack at   *)
@@ -82,13 +87,13 @@ ReadTok(stk, pre) ==
          /\ out' = IF Track THEN pre \o <<ReadEv(pos, ty, Top(stk).st, Len(stk))>> ELSE <<>>
 
 NoRead == UNCHANGED <<la, lasym, qla, qlasym, pos, w, closed>>
-RecLocals == <<errsym, save, rstate, rec>>
+RecLocals == <<errsym, save, rstate, rec, lost>>
 
 -----------------------------------------------------------------------------
 (* parse(): p._stack.Push(_item{}); p._readToken() *)
 Start ==
   /\ pc = "start"
-  /\ stack' = <<Item(0, NoV, 0, 0, FALSE)>>
+  /\ stack' = <<Item(0, NoV, 0, 0, FALSE, <<>>)>>
   /\ ReadTok(stack', <<>>)
   /\ pc' = "run"
   /\ UNCHANGED <<cid, nid>> /\ UNCHANGED RecLocals
@@ -110,7 +115,7 @@ NoAction ==
   \* errSym, ok := p._lasym.(Error); if !ok { errSym = p._makeError() }
   /\ errsym' = IF la = ERR THEN lasym ELSE MkErr([i |-> lasym.i, ty |-> la], Top(stack).st)
   /\ pc' = "rec_skip" /\ out' = <<>> /\ rec' = TRUE
-  /\ UNCHANGED <<cid, stack, nid, save, rstate>> /\ NoRead
+  /\ UNCHANGED <<cid, stack, nid, save, rstate, lost>> /\ NoRead
 
 Accept ==
   /\ pc = "run"
@@ -124,7 +129,8 @@ Shift ==
   /\ pc = "run"
   /\ FindSafe(T.actions, Top(stack).st)
   /\ Lookup[2] /\ Lookup[1] # T.accept /\ Lookup[1] >= 0
-  /\ stack' = Append(stack, Item(Lookup[1], lasym, lasym.i, lasym.i, FALSE))
+  /\ stack' = Append(stack, Item(Lookup[1], lasym, lasym.i, lasym.i, FALSE,
+                                  <<<<IF la = ERR THEN "x" ELSE "t", lasym.i, la>>>>))
   /\ ReadTok(stack', <<>>)
   /\ UNCHANGED <<cid, pc, nid>> /\ UNCHANGED RecLocals
 
@@ -180,7 +186,7 @@ Reduce ==
               bd == IF Track THEN BoundsOf(slice) ELSE [b |-> 0, e |-> 0, empty |-> FALSE]
               base == SubSeq(stack, 1, Len(stack) - tc)
               g == Find(T.goto, Top(base).st, rule)      \* nextState, _ := _Find(...)
-          IN /\ stack' = Append(base, Item(g[1], a.v, bd.b, bd.e, bd.empty))
+          IN /\ stack' = Append(base, Item(g[1], a.v, bd.b, bd.e, bd.empty, IF Track THEN YieldOf(slice) ELSE <<>>))
              /\ nid' = nid + a.n
              /\ out' = IF Track
                        THEN a.ev \o (IF T.emitBounds /\ ~bd.empty
@@ -205,7 +211,7 @@ RecOuter ==
   /\ pc = "rec_outer"
   /\ save' = stack
   /\ pc' = "rec_pop" /\ out' = <<>>
-  /\ UNCHANGED <<cid, stack, nid, errsym, rstate, rec>> /\ NoRead
+  /\ UNCHANGED <<cid, stack, nid, errsym, rstate, rec, lost>> /\ NoRead
 
 \* for len(p._stack) >= 1 { state := p._stack.Peek(0).State
 RecPopTest ==
@@ -214,7 +220,7 @@ RecPopTest ==
      THEN rstate' = Top(stack).st /\ pc' = "rec_inner"
      ELSE rstate' = rstate /\ pc' = "rec_end"
   /\ out' = <<>>
-  /\ UNCHANGED <<cid, stack, nid, errsym, save, rec>> /\ NoRead
+  /\ UNCHANGED <<cid, stack, nid, errsym, save, rec, lost>> /\ NoRead
 
 \* one iteration of the innermost for
 RecInnerNoErr ==        \* action, ok := _Find(_actions, state, ERROR); if !ok { break } ... Pop(1)
@@ -230,7 +236,7 @@ RecInnerReduce ==       \* if action < 0 { state, _ = _Find(_goto, state, rule);
      /\ f[2] /\ f[1] < 0
      /\ rstate' = Find(T.goto, rstate, At(T.rules, -f[1]))[1]
   /\ pc' = pc /\ out' = <<>>
-  /\ UNCHANGED <<cid, stack, nid, errsym, save, rec>> /\ NoRead
+  /\ UNCHANGED <<cid, stack, nid, errsym, save, rec, lost>> /\ NoRead
 
 RecInnerReject ==       \* state = action; _, ok = _Find(_actions, state, la); if !ok { break } ... Pop(1)
   /\ pc = "rec_inner"
@@ -248,7 +254,10 @@ RecInject ==            \* p._qla = p._la; ...; p._la = ERROR; p._lasym = errSym
      /\ Find(T.actions, f[1], la)[2]
   /\ qla' = la /\ qlasym' = lasym /\ la' = ERR /\ lasym' = errsym
   /\ pc' = "run" /\ out' = <<>>
-  /\ UNCHANGED <<cid, stack, nid, pos, w, closed>> /\ UNCHANGED RecLocals
+  /\ lost' = IF Track
+             THEN lost \cup {save[k].sym.i : k \in {q \in (Len(stack) + 1)..Len(save) : save[q].sym.k = "x"}}
+             ELSE lost
+  /\ UNCHANGED <<cid, stack, nid, pos, w, closed, errsym, save, rstate, rec>>
 
 RecFailEOF ==           \* if p._la == EOF { return false }
   /\ pc = "rec_end"
